@@ -15,6 +15,15 @@ def build(L, how):
     return g
 
 
+def build_mesh(mesh):
+    """the unstructured source of Regrid.tla (doubled coordinates): triangles and quadrilaterals mixed"""
+    pts = np.array(mesh["pts"], dtype=float) / 2.0
+    width = max(len(c) for c in mesh["cells"])
+    cells = np.array([[n - 1 for n in c] + [-1] * (width - len(c)) for c in mesh["cells"]])
+    types = [fm.CellType.TRI if len(c) == 3 else fm.CellType.QUAD for c in mesh["cells"]]
+    return fm.UnstructuredGrid(points=pts, cells=cells, cell_types=types, data_location=fm.Location.CELLS)
+
+
 def shaped(values, grid, how):
     arr = np.array(values)
     return arr.reshape(grid.data_shape) if how == "struct" else arr
@@ -22,7 +31,8 @@ def shaped(values, grid, how):
 
 def one_run(case, garbage):
     c = case["c"]
-    gs, gd = build(c["src"], c["su"]), build(c["dst"], c["tu"])
+    gs = build_mesh(case["mesh"]) if c["su"] == "umixed" else build(c["src"], c["su"])
+    gd = build(c["dst"], c["tu"])
     vals = shaped([float(v) for v in case["field"]], gs, c["su"]).astype(float)
     smask = shaped(case["smask"], gs, c["su"]).astype(bool)
     tmask = shaped(case["tmask"], gd, c["tu"]).astype(bool)
